@@ -263,8 +263,17 @@ class Interp:
         if p.op == 'ite':
             return T.ite(p.args[0], self.ptr_add(p.args[1], delta), self.ptr_add(p.args[2], delta))
         if p.op != 'ptr':
-            raise Unsupported('pointer arithmetic on %s' % p.op)
+            # a pointer value of unknown provenance (loaded from memory, returned by an opaque
+            # call): it becomes its own symbolic base object
+            p = self.symptr(p)
         return T.mk('ptr', p.attr, (T.binop('add', p.args[0], delta, 'i64'),), 'ptr')
+
+    def symptr(self, p):
+        if p.op == 'ptr':
+            return p
+        if p.ty != 'ptr':
+            raise Unsupported('non-pointer %s used as pointer' % p.op)
+        return T.mk('ptr', 'sym%d' % p.id, (T.const_int(64, 0),), 'ptr')
 
     # ------------------------------------------------------------ memory access
     def initial(self, mem, off, size, ty):
@@ -330,7 +339,7 @@ class Interp:
             if base.startswith('g:'):
                 g = self.globals.get(base[2:])
                 kind = 'gconst' if (g and g.get('const') and 'init' in g) else 'global'
-            elif base.startswith('a'):
+            elif base.startswith('a') or base.startswith('sym'):
                 kind = 'param'
             elif base.startswith('exn'):
                 kind = 'exn'
@@ -407,7 +416,7 @@ class Interp:
         if p.op == 'ite':
             return T.ite(p.args[0], self.load(state, p.args[1], size, ty), self.load(state, p.args[2], size, ty))
         if p.op != 'ptr':
-            raise Unsupported('load through %s' % p.op)
+            p = self.symptr(p)
         m = self.getmem(state, p.attr)
         off = p.args[0]
         off = T.signed(off) if T.is_const(off) else off
@@ -421,7 +430,7 @@ class Interp:
             self.store(state, p.args[2], size, val, nc if guard is None else T.bool_and(guard, nc))
             return
         if p.op != 'ptr':
-            raise Unsupported('store through %s' % p.op)
+            p = self.symptr(p)
         base = p.attr
         m = self.getmem(state, base)
         off = p.args[0]
@@ -768,8 +777,10 @@ class Interp:
                     m = self.getmem(state, base)
                     cargs.append(a); cargs.append(m.frozen())
                     ptr_bases.append(base)
-                else:
+                elif a.op == 'ite':
                     raise Unsupported('opaque call with merged pointer argument')
+                else:
+                    cargs.append(a)
             else:
                 cargs.append(a)
         node = T.call(name, cargs, ty)
